@@ -55,6 +55,9 @@ M = [
  ("C14", "value-rsplit", "tools/potable/__init__.py", '    key, value = key.split("=", 1)', '    key, value = key.rsplit("=", 1)'),
  ("C14", "list-pair-twice", "tools/potable/_query_actions.py", '  if "potential_form" in parsed_sections:', '  if "pair" in parsed_sections:\n    items.extend(_list_pair(cp))\n  if "potential_form" in parsed_sections:'),
  ("C15", "revert-own-options", "config/_config_parser.py", "  def options(self, section):", "  def _unused_options(self, section):"),
+ ("C20", "table-vs-standard-check-off", "config/_potential_form_registry.py", "      if d.name in self._potential_forms or d.name in table_forms:", "      if False:"),
+ ("C20", "reversed-pair-check-off", "config/_config_parser.py", "        if (p in seen) or (rev_p in seen):", "        if (p in seen):"),
+ ("C20", "revert-optionxform", "config/_config_parser.py", "    option = option.strip().replace(' ', '').replace('\\t', '')", "    option = option.strip()"),
  ("C03", "setfl-nr-minus-1", "eam_tabulation.py", None, None),
 ]
 def main():
